@@ -120,6 +120,13 @@ def main():
     else:
         errors.append("build failed: " + "\n".join(c.notes)[-3000:])
 
+    # temporary maildirs of harness processes that died (e.g. killed by the sanitizer) are removed here
+    import glob, shutil
+    for d in glob.glob("/dev/shm/nqc19*-*") + glob.glob("/tmp/nqc19*-*"):
+        pid = d.rsplit("-", 1)[-1]
+        if pid.isdigit() and not os.path.exists("/proc/" + pid):
+            shutil.rmtree(d, ignore_errors=True)
+
     c.cov["evaluations"] = int(stats.get("cases", 0))
     c.cov["distinct_nontrivial"] = int(stats.get("distinct_nontrivial", 0))
     c.cov["traces_validated_against_impl"] = max(0, int(stats.get("cases", 0)) - int(stats.get("disagree", 0)))
@@ -146,14 +153,16 @@ def main():
         c.violation("property oracle fails on the implementation's output",
                     {"failing_case": kv(first), "raw": first[:4000], "replay_cases": [case_of(first)], "how_to_replay": hint,
                      "oracle_failures": len(other)}, found_input=True)
-    else:
-        standard_verdict(c, ok, stats, disagree, [], errors, "Nq.Pop3 main/pmain (Nq/Pop3.lean) vs qmail-pop3d.c / qmail-popup.c main()",
-                         neighbourhood, replay_hint=hint)
     if wrap:
         first = shortest(wrap)
         c.violation("a message number (or TOP line count) of 2^64 or more is taken modulo 2^64 instead of being refused",
                     {"finding_class": "C19-msgno-wrap", "failing_case": kv(first), "raw": first[:4000],
-                     "replay_cases": [case_of(first)], "how_to_replay": hint, "oracle_failures": len(wrap)}, found_input=True)
+                     "replay_cases": [case_of(first)], "how_to_replay": hint, "oracle_failures": len(wrap),
+                     "theorems_no_longer_checked": getattr(c, "broken", [])}, found_input=True)
+    if not c.violations:
+        # no failing input reported so far: proofs / correspondence / harness errors decide (focused search included)
+        standard_verdict(c, ok, stats, disagree, [], errors, "Nq.Pop3 main/pmain (Nq/Pop3.lean) vs qmail-pop3d.c / qmail-popup.c main()",
+                         neighbourhood, replay_hint=hint)
     c.finish()
 
 
